@@ -244,6 +244,15 @@ def ctl_scenarios() -> dict[str, dict[str, Any]]:
                                       "hold": "StartStage:s|CancelStage:s", "workers": 2, "kind": "cancel", "cancel_when": "StartStage:s"},
         "cancelstage-vs-startstage-built": {"spec": {"name": "chain3b", "stages": [stage("a", [], [ok()]), stage("s", ["a"], [ok(), ok()], built=True), stage("z", ["s"], [ok()])]},
                                             "hold": "StartStage:s|CancelStage:s", "workers": 2, "kind": "cancel", "cancel_when": "StartStage:s"},
+        # the CancelStage of a stage racing the RunTask whose task is executing (and suspends / succeeds / fails afterwards)
+        "cancelstage-vs-runtask-suspend": {"spec": {"name": "gate3", "stages": [stage("a", [], [ok()]), stage("g", ["a"], [{"b": "suspend", "emit": []}]), stage("z", ["g"], [ok()])]},
+                                           "hold": "RunTask:g|CancelStage:g", "workers": 2, "kind": "cancel", "cancel_when": "RunTask:g"},
+        "cancelstage-vs-runtask-ok": {"spec": {"name": "chain3r", "stages": [stage("a", [], [ok()]), stage("s", ["a"], [ok(), ok()]), stage("z", ["s"], [ok()])]},
+                                      "hold": "RunTask:s|CancelStage:s", "workers": 2, "kind": "cancel", "cancel_when": "RunTask:s"},
+        "cancelstage-vs-runtask-poll": {"spec": {"name": "poll3r", "stages": [stage("a", [], [ok()]), stage("s", ["a"], [{"b": "poll", "k": 2}]), stage("z", ["s"], [ok()])]},
+                                        "hold": "RunTask:s|CancelStage:s", "workers": 2, "kind": "cancel", "cancel_when": "RunTask:s"},
+        "cancelstage-vs-runtask-transient": {"spec": {"name": "tr3r", "stages": [stage("a", [], [ok()]), stage("s", ["a"], [{"b": "transient", "k": 2}]), stage("z", ["s"], [ok()])]},
+                                             "hold": "RunTask:s|CancelStage:s", "workers": 2, "kind": "cancel", "cancel_when": "RunTask:s"},
         "cancel-vs-first-completestage": {"spec": two, "hold": "CompleteStage:a|CancelWorkflow:", "workers": 2, "kind": "cancel", "cancel_when": "CompleteStage:a"},
     }
 
@@ -257,7 +266,7 @@ def shard_ctl(prop: str, tier: str, seed: int, which: str) -> dict[str, Any]:
     c = Campaign(prop, tier, seed, LEVEL)
     sc = ctl_scenarios()[which]
     prep = c07.prepare_pair(sc)
-    if sorted(k for k in prep["pending"] if k in set(sc["hold"].split("|"))) != sorted(sc["hold"].split("|")):
+    if not set(sc["hold"].split("|")) <= set(prep["pending"]):
         c.harness_error(f"ctl scenario {which}: held messages not both pending: {prep['pending']}")
         return c.export()
     mk = c07.make_pair_world(prep, sc)
